@@ -272,15 +272,22 @@ def rule_K3(ctx):
 
 
 def _mark_limit(prog):
-    f = prog.func("re_rec", file="regex.c")
-    for s, lv, op, rhs in stores(f.body):
-        lf = lv_field(lv)
-        if lf and lf[1] == "mark" and lf[2]:
-            for cid, t in f.cfg.facts_at(s["id"]):
-                c = f.nodes.get(cid)
-                if c is not None and c["k"] == "bin" and c["op"] == "<" and t and cval(c["r"]) is not None:
-                    return cval(c["r"])
-    raise AnalysisBroken("re_rec: mark guard constant not found")
+    """the constant below which the matcher (re_rec or a helper of it) records a mark"""
+    for f in prog.funcs.values():
+        if f.file != "regex.c":
+            continue
+        for s, lv, op, rhs in stores(f.body):
+            lf = lv_field(lv)
+            if lf and lf[0] == "rstate" and lf[1] == "mark" and lf[2] and not (cval(rhs) is not None and cval(rhs) < 0):
+                for cid, t in f.cfg.facts_at(s["id"]):
+                    c = f.nodes.get(cid)
+                    if c is not None and c["k"] == "bin" and c["op"] == "<" and t and cval(c["r"]) is not None:
+                        return cval(c["r"])
+                    if c is not None and c["k"] == "bin" and c["op"] == ">" and t and cval(c["l"]) is not None:
+                        return cval(c["l"])
+                    if c is not None and c["k"] == "bin" and c["op"] == ">=" and not t and cval(c["r"]) is not None:
+                        return cval(c["r"])
+    raise AnalysisBroken("regex.c: mark guard constant not found")
 
 
 def rule_K4(ctx):
